@@ -26,7 +26,11 @@ use vstd::std_specs::iter::IteratorSpec;
 pub struct Identifier { _x: u8 }
 /// partial stand-in: the one public field the generator reads directly is real, the rest is opaque
 pub struct ClassRest { _x: u8 }
-pub struct Class { pub parents: HashSet<TrueName>, pub verif_rest: ClassRest }
+/// partial stand-in for check::context::field::Field (named ClassField here: `Field` is also a variant of Expect): the three
+/// fields the generator reads are real, the rest is opaque
+pub struct FieldRest { _x: u8 }
+pub struct ClassField { pub name: String, pub ty: Name, pub assigned_to: bool, pub verif_rest: FieldRest }
+pub struct Class { pub parents: HashSet<TrueName>, pub fields: HashSet<ClassField>, pub verif_rest: ClassRest }
 
 verus! {
 
@@ -44,6 +48,7 @@ verus! {
 //@@ ASSUME src/check/context/clss/mod.rs | impl LookupClass<&TrueName, Class> for Context | class
 //@@ ASSUME src/check/context/clss/mod.rs | impl HasParent<&Name> for Class | has_parent
 //@@ ASSUME src/check/context/clss/mod.rs | impl HasParent<&TrueName> for Class | has_parent
+//@@ ASSUME src/check/name/mod.rs | impl Nullable for Name | is_nullable
 // ---- gen_vec: statement sequencing (C09 "the environment returned by a statement is carried to the next") ---------------
 /// envs[i] is the environment before statement i; statement i is visited in it (or in `env` when nothing is carried)
 /// and returns envs[i + 1]
@@ -355,6 +360,8 @@ pub fn verif_havoc_arm_types(cases: &Vec<AST>) -> (r: TypeResult<HashSet<TrueNam
 #[verifier::external_type_specification] #[verifier::external_body] pub struct ExIdentifier(Identifier);
 #[verifier::external_type_specification] #[verifier::external_body] pub struct ExClassRest(ClassRest);
 #[verifier::external_type_specification] pub struct ExClass(Class);
+#[verifier::external_type_specification] #[verifier::external_body] pub struct ExFieldRest(FieldRest);
+#[verifier::external_type_specification] pub struct ExClassField(ClassField);
 /// the (mutable, name) pairs an identifier pattern binds (Identifier::try_from + fields: iterator code; a function of
 /// the pattern)
 pub uninterp spec fn id_fields(a: AST) -> Seq<(bool, String)>;
@@ -681,12 +688,75 @@ pub uninterp spec fn cls_of(c: Class) -> TrueName;
 pub uninterp spec fn exception_name() -> Name;
 /// the class `n` has `Exception` among its ancestors
 pub open spec fn is_exception(ctx: Context, n: TrueName) -> bool { name_anc(ctx, n, exception_name()) }
+/// what Context::class accepts as a key (the real code overloads the trait for &TrueName and &StringName)
+pub trait ClassKey { spec fn ckey(&self) -> TrueName; }
+impl ClassKey for TrueName { open spec fn ckey(&self) -> TrueName { *self } }
+pub uninterp spec fn sn_key(n: StringName) -> TrueName;
+impl ClassKey for StringName { open spec fn ckey(&self) -> TrueName { sn_key(*self) } }
+/// A-EXT: the class a key denotes in a context (a function of both)
+pub uninterp spec fn ctx_class(ctx: Context, k: TrueName) -> Class;
 impl Context {
     #[verifier::external_body]
-    pub fn class(&self, n: &TrueName, pos: Position) -> (r: TypeResult<Class>)
-        ensures r is Ok <==> class_known(*self, *n), r matches Ok(c) ==> cls_of(c) == *n, r is Err ==> r->Err_0@.len() >= 1,
+    pub fn class<Q: ClassKey>(&self, n: &Q, pos: Position) -> (r: TypeResult<Class>)
+        ensures r is Ok <==> class_known(*self, n.ckey()), r matches Ok(c) ==> cls_of(c) == n.ckey() && c == ctx_class(*self, n.ckey()), r is Err ==> r->Err_0@.len() >= 1,
     { unimplemented!() }
 }
+// ---- which fields a constructor has to assign (C09) ---------------------------------------------------------------------------
+pub uninterp spec fn hsf(s: HashSet<ClassField>) -> Set<ClassField>;
+impl Class {
+    #[verifier::external_body] pub fn clone(&self) -> (r: Class) ensures r == *self { unimplemented!() }
+}
+impl HashSet<ClassField> {
+    #[verifier::external_body]
+    pub fn contains(&self, x: &ClassField) -> (r: bool) ensures r == hsf(*self).contains(*x) { unimplemented!() }
+}
+pub uninterp spec fn name_nullable(n: Name) -> bool;
+impl Name {
+    #[verifier::external_body]
+    pub fn is_nullable(&self) -> (r: bool) ensures r == name_nullable(*self) { unimplemented!() }
+}
+/// a parent class (as the context knows it) already has this field
+pub open spec fn inherited(ctx: Context, c: Class, f: ClassField) -> bool {
+    exists|p: TrueName| hs(c.parents).contains(p) && hsf((#[trigger] ctx_class(ctx, p)).fields).contains(f)
+}
+/// the rule, from the language documentation: a constructor has to assign every field the class ITSELF declares (not one a
+/// parent already has) whose type does not admit None and which has no default value
+pub open spec fn has_to_assign(ctx: Context, c: Class, f: ClassField) -> bool {
+    hsf(c.fields).contains(f) && !inherited(ctx, c, f) && !name_nullable(f.ty) && !f.assigned_to
+}
+pub open spec fn has_to_assign_name(ctx: Context, c: Class, n: Seq<char>) -> bool {
+    exists|f: ClassField| #[trigger] has_to_assign(ctx, c, f) && f.name@ == n
+}
+/// A-REWRITE: `set.iter().map(f).collect::<TypeResult<Vec<_>>>()`: Ok with f's result for every member iff f succeeds on all
+#[verifier::external_body]
+pub fn verif_parents_try<F: Fn(&TrueName) -> TypeResult<Class>>(set: &HashSet<TrueName>, f: F, Ghost(val): Ghost<spec_fn(TrueName) -> Class>) -> (r: TypeResult<Vec<Class>>)
+    requires forall|n: TrueName| #[trigger] f.requires((&n,)),
+        forall|n: TrueName, o: TypeResult<Class>| #[trigger] f.ensures((&n,), o) ==> (o matches Ok(c) ==> c == val(n)) && (o is Err ==> o->Err_0@.len() >= 1),
+    ensures r matches Ok(v) ==> (forall|k: int| 0 <= k < v@.len() ==> exists|n: TrueName| hs(*set).contains(n) && #[trigger] v@[k] == val(n))
+            && (forall|n: TrueName| hs(*set).contains(n) ==> exists|k: int| 0 <= k < v@.len() && #[trigger] v@[k] == val(n)),
+        r is Err ==> r->Err_0@.len() >= 1,
+{ unimplemented!() }
+/// A-REWRITE: `v.iter().any(f)`
+#[verifier::external_body]
+pub fn verif_any_class<F: Fn(&Class) -> bool>(v: &Vec<Class>, f: F, Ghost(pred): Ghost<spec_fn(Class) -> bool>) -> (r: bool)
+    requires forall|c: Class| #[trigger] f.requires((&c,)),
+        forall|c: Class, b: bool| #[trigger] f.ensures((&c,), b) ==> b == pred(c),
+    ensures r == (exists|k: int| 0 <= k < v@.len() && pred(#[trigger] v@[k])),
+{ unimplemented!() }
+/// A-REWRITE: `set.iter().filter(f1).filter(f2).collect::<Vec<&ClassField>>()`: the members both keep, each once
+#[verifier::external_body]
+pub fn verif_filter2_collect<'a, F1: Fn(&&ClassField) -> bool, F2: Fn(&&ClassField) -> bool>(set: &'a HashSet<ClassField>, f1: F1, f2: F2, Ghost(p1): Ghost<spec_fn(ClassField) -> bool>, Ghost(p2): Ghost<spec_fn(ClassField) -> bool>) -> (r: Vec<&'a ClassField>)
+    requires forall|x: ClassField| #[trigger] f1.requires((&&x,)), forall|x: ClassField| #[trigger] f2.requires((&&x,)),
+        forall|x: ClassField, b: bool| #[trigger] f1.ensures((&&x,), b) ==> b == p1(x),
+        forall|x: ClassField, b: bool| #[trigger] f2.ensures((&&x,), b) ==> b == p2(x),
+    ensures (forall|k: int| 0 <= k < r@.len() ==> hsf(*set).contains(*#[trigger] r@[k]) && p1(*r@[k]) && p2(*r@[k])),
+        (forall|x: ClassField| hsf(*set).contains(x) && p1(x) && p2(x) ==> exists|k: int| 0 <= k < r@.len() && *#[trigger] r@[k] == x),
+{ unimplemented!() }
+/// OUTLINED `fields.iter().map(|f| f.name.clone()).collect::<HashSet<String>>()`: the set of their names
+#[verifier::external_body]
+pub fn verif_field_names(fields: &Vec<&ClassField>) -> (r: HashSet<String>)
+    ensures forall|n: Seq<char>| hss(r).contains(n) <==> exists|k: int| 0 <= k < fields@.len() && (#[trigger] fields@[k]).name@ == n,
+{ unimplemented!() }
 /// what Class::has_parent accepts as the ancestor to look for (the real code overloads the trait for &TrueName and &Name)
 pub trait ParentLike { spec fn is_anc(&self, ctx: Context, c: TrueName) -> bool; }
 impl ParentLike for TrueName { open spec fn is_anc(&self, ctx: Context, c: TrueName) -> bool { anc(ctx, c, *self) } }
@@ -700,16 +770,14 @@ impl Class {
 /// OUTLINED `Name::from(clss::EXCEPTION)`
 #[verifier::external_body]
 pub fn verif_exception_name() -> (r: Name) ensures r == exception_name() { unimplemented!() }
-/// HAVOCKED preamble of the FunDef arm: constructor bookkeeping (which non-nullable fields of the class must be assigned)
-#[verifier::external_body]
-pub fn verif_havoc_init_fields(id: &AST, env: &Environment, ctx: &Context) -> (r: TypeResult<(Option<Class>, HashSet<String>)>)
-    ensures r is Err ==> r->Err_0@.len() >= 1,
-        r matches Ok(p) ==> (p.0 is Some) == is_ctor(*id, *env) && hss(p.1) == must_assign(*id, *env, *ctx),
-{ unimplemented!() }
-/// the definition is the constructor `init` of a class (preamble, pinned)
-pub uninterp spec fn is_ctor(id: AST, env: Environment) -> bool;
-/// the fields a constructor has to assign: the non-nullable, not defaulted fields the class itself declares (preamble, pinned)
-pub uninterp spec fn must_assign(id: AST, env: Environment, ctx: Context) -> Set<Seq<char>>;
+/// the definition is the constructor of a class: it is called `init` and sits in a class
+pub open spec fn is_ctor(id: AST, env: Environment) -> bool {
+    (id.node matches Node::Id { lit } && lit@ == INIT@) && env.class is Some
+}
+/// the class whose constructor it is, as the context knows it
+pub open spec fn ctor_class(env: Environment, ctx: Context) -> Class {
+    match env.class { Some(sn) => ctx_class(ctx, sn_key(sn)), None => arbitrary() }
+}
 /// A-REWRITE: `set.iter().map(f).collect::<Vec<String>>()`: one message per member — none iff the set is empty
 #[verifier::external_body]
 pub fn verif_set_map_collect<F: Fn(&String) -> String>(s: &HashSet<String>, f: F) -> (r: Vec<String>)
@@ -759,8 +827,8 @@ pub open spec fn fundef_post(ast: AST, env: Environment, ctx: Context, r: Constr
             // if none is left at the end of the body (assignments discharge them: unit GENCALL; reads of them are rejected)
             && (is_ctor(*id, env) ==> match body {
                 Some(bd) => exists|be: Environment, out: Environment| #[trigger] visited(b, *bd, be, out)
-                    && hss(be.unassigned) == must_assign(*id, env, ctx) && hss(out.unassigned) =~= Set::<Seq<char>>::empty(),
-                None => must_assign(*id, env, ctx) =~= Set::<Seq<char>>::empty(),
+                    && (forall|n: Seq<char>| hss(be.unassigned).contains(n) <==> has_to_assign_name(ctx, ctor_class(env, ctx), n)) && hss(out.unassigned) =~= Set::<Seq<char>>::empty(),
+                None => forall|n: Seq<char>| !has_to_assign_name(ctx, ctor_class(env, ctx), n),
             })),
         Node::FunArg { .. } => r is Err,
         _ => true,
@@ -769,9 +837,30 @@ pub open spec fn fundef_post(ast: AST, env: Environment, ctx: Context, r: Constr
 
 #[verifier::loop_isolation(false)]
 //@@ FN src/check/constrain/generate/definition.rs | free | gen_def | props=C08,C09,C03
-//@@ REPLACE pin=5ca810f52f79
+//@@ REPLACE
+//@@< Id { lit } if *lit == INIT =>
+//@@> Id { lit } if verif_str_is(lit.as_str(), INIT) =>
+//@@ REPLACE deep
+//@@< class .parents .iter() .map(|p| $$) .collect::<TypeResult<_>>()?
+//@@> verif_parents_try(&class.parents, |p: &TrueName| -> (o: TypeResult<Class>) ensures (o matches Ok(c) ==> c == ctx_class(*ctx, *p)) && (o is Err ==> o->Err_0@.len() >= 1), { $$1 }, Ghost(|n: TrueName| ctx_class(*ctx, n)))?
+//@@ REPLACE deep
+//@@< class .fields .iter() .filter(|f| $$) .filter(|f| $$) .collect()
+//@@> verif_filter2_collect(&class.fields, |f: &&ClassField| -> (b: bool) ensures /*# a_field_a_parent_already_has_is_not_the_constructors_to_assign [C09] #*/ b == !inherited(*ctx, class, **f), { $$1 }, |f: &&ClassField| -> (b: bool) ensures /*# only_fields_that_do_not_admit_none_and_have_no_default_must_be_assigned [C09] #*/ b == (!name_nullable(f.ty) && !f.assigned_to), { $$2 }, Ghost(|x: ClassField| !inherited(*ctx, class, x)), Ghost(|x: ClassField| !name_nullable(x.ty) && !x.assigned_to))
+//@@ REPLACE deep
+//@@< parents.iter().any(|p| $$)
+//@@> verif_any_class(&parents, |p: &Class| -> (b2: bool) ensures b2 == hsf(p.fields).contains(**f), { $$1 }, Ghost(|c: Class| hsf(c.fields).contains(**f)))
+//@@ REPLACE
+//@@< let fields: Vec<&Field> =
+//@@> let fields: Vec<&ClassField> =
+//@@ HINT after
+//@@< let fields: Vec<&Field> = $$;
+//@@> proof { assert forall|n: Seq<char>| (exists|k: int| 0 <= k < fields@.len() && (#[trigger] fields@[k]).name@ == n) <==> has_to_assign_name(*ctx, class, n) by { if exists|k: int| 0 <= k < fields@.len() && (#[trigger] fields@[k]).name@ == n { let k = choose|k: int| 0 <= k < fields@.len() && (#[trigger] fields@[k]).name@ == n; assert(has_to_assign(*ctx, class, *fields@[k])); } if has_to_assign_name(*ctx, class, n) { let f = choose|f: ClassField| #[trigger] has_to_assign(*ctx, class, f) && f.name@ == n; let k = choose|k: int| 0 <= k < fields@.len() && *#[trigger] fields@[k] == f; assert(fields@[k].name@ == n); } } }
+//@@ HINT after
 //@@< let (class, non_nullable_class_vars) = match &id.node { $$ };
-//@@> let (class, non_nullable_class_vars) = verif_havoc_init_fields(id, env, ctx)?;
+//@@> proof { assert((class is Some) == is_ctor(**id, *env)); assert(is_ctor(**id, *env) ==> forall|n: Seq<char>| #![trigger hss(non_nullable_class_vars).contains(n)] #![trigger has_to_assign_name(*ctx, ctor_class(*env, *ctx), n)] hss(non_nullable_class_vars).contains(n) <==> has_to_assign_name(*ctx, ctor_class(*env, *ctx), n)); }
+//@@ REPLACE
+//@@< fields.iter().map(|f| f.name.clone()).collect()
+//@@> verif_field_names(&fields)
 //@@ REPLACE pin=42c4be3d849e
 //@@< let (raises, errs): (Vec<(Position, _)>, Vec<_>) = raises $$ .partition($$); if !errs.is_empty() { $$ }
 //@@> let raises_ast_g = Ghost(raises@); let raises = verif_declared_raises(raises)?;
